@@ -44,7 +44,7 @@ ASSUMPTIONS = [
 ]
 
 FEAT = gen.Feat(inherit=True, items=True, uncached=True, objrefs=True, shadow=False, max_top=3, max_child=2,
-                max_cells=3, max_rank=4, depth=2, tick=False, allow_none=False, uncached_p=3)
+                max_cells=3, max_rank=4, depth=2, tick=False, allow_none=True, uncached_p=3)
 
 DOC_TEXTS = ["plain doc", "two\nlines", "with \"double\" quotes", "ends with a quote\"", "back\\slash and \\n",
              "unicode é中\U0001F600", "'single'", "tab\there", "  leading and trailing  ", "triple \"\"\" inside"]
@@ -86,7 +86,7 @@ def cases(draw):
         for n in s.cells:
             # (a later change of allow_none does not reach derived copies - outside C03/C04's claims -
             #  so it is only set on cells that nobody derives)
-            if draw(st.integers(0, 4)) == 0 and not G.subs(s):
+            if draw(st.integers(0, 4)) == 0:
                 extra.append(["set_allow_none", list(s.path), n, draw(st.sampled_from([True, False, None]))])
     # exotic reference values (names v0.. are never read by formulas)
     for j in range(draw(st.integers(0, 4))):
